@@ -24,7 +24,9 @@ TInit == l = 1 /\ bad = FALSE /\ kind = "" /\ canon = <<>> /\ canonw = <<>>
 IsStart == e.ev = "Open"
 Returned == e.out = "ret"
 \* kind "parses": a program another generator (ScopeSem.tla) derives, for which no tree is prescribed here: it is accepted
-\* under every Options value ("Parse succeeds"; "the same holds under every Options value")
+\* under every Options value ("Parse succeeds"; "the same holds under every Options value").  With rep = n > 0 the text
+\* parsed is n copies of the program, each the body of a block: a derivable statement list is a derivable block body, and a
+\* sequence of blocks is a statement list (Open.why = "repetition").
 Step == CASE e.ev = "Parse" -> IF kind = "accept" THEN e.ok /\ e.str = (IF e.w2f THEN canonw ELSE canon)
                                ELSE IF kind = "parses" THEN e.ok
                                ELSE kind = "reject" /\ ~e.ok
